@@ -75,6 +75,7 @@ package jsonparser
 //@   opt safety bounds
 //@   modifies *
 //@ func convertTypesToValues
+//@   modifies *
 //@   opt safety bounds
 //@   ensures len(values) == len(types) [C10.convert.len]
 
